@@ -8,9 +8,9 @@ from streams import lca
 
 TB = [
     "Lean 4.33 kernel; axioms allowed: propext, Classical.choice, Quot.sound (checked by #print axioms on every theorem)",
-    "hand-written model of LCA_Database (six tables, insert, _signatures with its batching, get_lineage_assignments, get_identifiers_for_hashval, downsample_scaled, JSON save/load), of its SQLite twin (save_to_sql, LineageDB_Sqlite, _build_index), of build_tree/find_lca/count_lca_for_assignments/pop_to_rank and of the summarize/classify loops, tied to /repo by the lca correspondence stream (differential testing)",
+    "hand-written model of LCA_Database (six tables, insert, _signatures with its batching, get_lineage_assignments, get_identifiers_for_hashval, downsample_scaled, JSON save/load followed by further insertions), of its SQLite twin (save_to_sql, LineageDB_Sqlite, _build_index), of build_tree/find_lca/count_lca_for_assignments/pop_to_rank and of the summarize/classify loops, tied to /repo by the lca correspondence stream (differential testing)",
     "translator: taxlist(), NCBI_RANKS, the SQL column orders, the comparison and threshold expression of downsample_scaled, the _signatures batch constant, the threshold comparisons of summarize/classify are re-read from the source on every run; LineageTree.add_lineage/find_lca are checked to be the same statements as lca_utils.build_tree/find_lca (AST comparison)",
-    "`minhash.downsample(scaled=S).hashes` is modelled as the sketch's hashes <= max_hash (C01/C03's subject); Python dict/set ordering is modelled as insertion order and every observation that comes out of a set is sorted; json, sqlite3, gzip, the filesystem are trusted",
+    "`minhash.downsample(scaled=S).hashes` is modelled as the sketch's hashes <= max_hash (C01/C03's subject); Python dict ordering is modelled as insertion order; the iteration order of Python sets (the idx sets of _hashval_to_idx, rebuilt with set(list) by load) is a CPython artefact: the model keeps first-insertion order and every observation that comes out of a set (lineage lists, identifier lists, hash values, signatures) is sorted on both sides; json, sqlite3, gzip, the filesystem are trusted",
 ]
 AS = [
     "lineages are positional (rank i of taxlist() at position i, empty name = missing rank) when a database is stored; lineages whose names are all empty, rank-skipping lineages and signatures without a name are not generated for databases (find_lca itself is exercised on arbitrary pair sequences)",
@@ -20,7 +20,7 @@ AS = [
 RULE = ("histories: 1..12 signatures (hashes shared heavily; values at max_hash(S) and +-1 of the database's scaled value and of the "
         "downsampling target), lineages full/partial/with a missing rank/padded/absent/identical for several signatures, identifiers "
         "default/first word/version-stripped/arbitrary/colliding, insertion orders, refused insertions; every hash queried on the "
-        "in-memory database, after JSON save/load, after conversion to SQLite, after downsample_scaled on each form and on a database "
+        "in-memory database, after JSON save/load (and after further insertions into the loaded database and a second round trip), after conversion to SQLite, after downsample_scaled on each form and on a database "
         "built directly at the target scaled; summarize/classify with thresholds 0..5; find_lca on arbitrary lineage sets by both "
         "implementations.  non-trivial = >= 2 accepted insertions and >= 3 non-empty lineage answers (or >= 3 find_lca answers); "
         "distinct = distinct op lists")
